@@ -32,9 +32,11 @@ def oracle(host, uri, default, subs):
     return 'none' if j is None else 'def:%d' % j
 
 
-HOSTS = ['example.com', 'a.example.com', 'b.a.example.com', 'localhost', 'localhost:8080', 'example.org', 'é.example.com', '']
+HOSTS = ['example.com', 'a.example.com', 'b.a.example.com', 'localhost', 'localhost:8080', 'example.org', 'é.example.com', '',
+         'a.example.com.example.com', 'cdn.com.com', 'localhost:8080:8080']
 HOST_PATS = ['*', 'example.com', '*.example.com', '*.com', 'a.*', 'localhost*', '*:8080', '*.a.example.com', 'exam*.com', '**']
-PATHS = ['/', '/a', '/a/b', '/a/b/c', '/static/x.css', '/static/', '/api/v1/users', '/api', '/é', '/a*b', '/index.html', '/x.html']
+PATHS = ['/', '/a', '/a/b', '/a/b/c', '/static/x.css', '/static/', '/api/v1/users', '/api', '/é', '/a*b', '/index.html', '/x.html',
+         '/a/b/b', '/static/x.css.css', '/static/a.css/b.css', '/api/users/users', '/x.html.html', '/aab', '/a/bab', '/xx']
 ROUTE_PATS = ['/*', '/', '/a', '/a/*', '/a*', '*/b', '/static/*', '/*.css', '/api/*', '/api/*/users', '*', '**', '/*/*', '/a/b',
               '/*.html', '/a*b', '/é', '/*x*']
 
